@@ -188,7 +188,7 @@ class DegreeAnalysis:
             elif isinstance(s, ast.Expr):
                 if isinstance(s.value, ast.Call):
                     self.ev(f, s.value, env)
-            elif isinstance(s, (ast.FunctionDef, ast.Pass, ast.Raise)):
+            elif isinstance(s, (ast.FunctionDef, ast.Pass, ast.Raise, ast.Assert, ast.Import, ast.ImportFrom, ast.Global, ast.Nonlocal, ast.Delete)):
                 continue
             elif isinstance(s, ast.For):
                 continue
